@@ -70,7 +70,7 @@ def observe(c):
 
 
 def coq_case(c, o):
-	return pc.coq_parse_cases(c, o)
+	return pc.coq_parse_cases(dict(c, quiet_tie=True), o)
 
 
 def oracle(c, o):
